@@ -176,9 +176,16 @@ func (w *verifC12) observe(focus int) {
 		verifapi.Assert(minC <= st.NumActiveClients && st.NumActiveClients <= maxC, "c12.obs.stats-active-clients")
 	}
 	// active-host queries: every kind, every limit 0..2
-	for _, kind := range []string{"", "geth", "parity"} {
+	kinds, limits := []string{"", "geth", "parity"}, []int{0, 1, 2}
+	if verifapi.Param("maporder_all", 0) == 1 {
+		// every map iteration order is explored: one (kind, limit) query per path, chosen by the
+		// explorer, instead of nine in a row (whose orders would multiply)
+		kinds = kinds[verifapi.Choose("obs.kind", 3):][:1]
+		limits = limits[verifapi.Choose("obs.limit", 3):][:1]
+	}
+	for _, kind := range kinds {
 		el, edge := s.ActiveSet(kind)
-		for limit := 0; limit <= 2; limit++ {
+		for _, limit := range limits {
 			r, err := d.ActiveHosts(kind, limit)
 			verifapi.Assert(err == nil, "c12.obs.activehosts-error")
 			seen := map[store.NodeID]bool{}
@@ -210,6 +217,8 @@ func (w *verifC12) observeBalances() {
 		verifapi.Assert(sameErr(berr, wberr), "c12.obs.nodebalance-error")
 		if berr == nil && wberr == nil {
 			verifapi.Assert(bal.Credit.Cmp(wb) == 0, "c12.obs.nodebalance-follows-wallet-once-linked")
+			// the owner recorded in the balance decides whether the payment layer looks up a deposit
+			verifapi.Assert(bal.Account == s.Owner(s.Link[id]), "c12.obs.nodebalance-owner")
 		}
 		for _, a := range w.accts {
 			verifapi.Assert(sameErr(d.IsAccountNode(a, id), s.IsAccountNode(a, id)), "c12.obs.isaccountnode")
@@ -218,6 +227,7 @@ func (w *verifC12) observeBalances() {
 	for _, a := range w.accts {
 		bal, err := d.GetAccountBalance(a)
 		verifapi.Assert(err == nil && bal.Credit.Cmp(s.GetAccountBalance(a)) == 0, "c12.obs.accountbalance")
+		verifapi.Assert(bal.Account == s.Owner(a), "c12.obs.accountbalance-owner")
 		nodes, err := d.GetAccountNodes(a)
 		want := s.GetAccountNodes(a)
 		verifapi.Assert(err == nil && len(nodes) == len(want), "c12.obs.accountnodes-size")
